@@ -3,7 +3,7 @@
 //  pg enough c1..c12 g1..g12    ProofGame::enoughRemainingPieces(c) with goalPieceCnt = g           -> 0|1
 //  pg plies nm0 nm1 <fenA> <fenB>  distLowerBound(A -> B) with computeNeededMoves' result overridden through the
 //                               TEXEL_VERIF hook: exercises the capture/ply combination at the end     -> int|inf
-//  pg gengame seed plies minMen style   random legal game from the initial position (input generator)  -> moves | fen
+//  pg gengame seed plies minMen style   (style bit 3: pawn-capture seeking) random legal game from the initial position (input generator)  -> moves | fen
 //  pg bound <fenA> | <fenB>     bounds / verdicts of the API for the pair (monitor, implementation only)
 #include <memory>
 #include <vector>
@@ -169,6 +169,13 @@ std::string opGenGame(const std::vector<std::string>& a) {
                 }
                 if ((pc == Piece::WKNIGHT || pc == Piece::BKNIGHT || pc == Piece::WBISHOP || pc == Piece::BBISHOP) &&
                     m.from().getY() == (wtm ? 0 : 7)) w = std::max(w, 40);   // clear the back rank
+            }
+            if (style & 8) {            // pawn-structure seeking: pawn captures, and men stepping onto squares attacked by enemy pawns
+                if (pawn && capture) w = std::max(w, 500);
+                else {
+                    U64 epAtk = wtm ? BitBoard::bPawnAttacksMask(pos.pieceTypeBB(Piece::BPAWN)) : BitBoard::wPawnAttacksMask(pos.pieceTypeBB(Piece::WPAWN));
+                    if (epAtk & (1ULL << m.to().asInt())) w = std::max(w, pawn ? 200 : 120);
+                }
             }
             idx.push_back(k); wt.push_back(w);
         }
